@@ -92,7 +92,7 @@ def nud__if_expression(self: XPathToken) -> XPathToken:
         return self.as_name()
 
     self.parser.advance('(')
-    self[:] = self.parser.expression(5),
+    self[:] = self.parser.expression(),
     self.parser.advance(')')
     self.parser.advance('then')
     self[1:] = self.parser.expression(5),
